@@ -271,6 +271,27 @@ func (un *Unit) execInstr(fr *Frame, st *State, in ssa.Instruction) {
 		// the spawned goroutine runs concurrently: like any other thread it can only touch shared state that the
 		// sequential proof already treats as changeable (volatile state, monitor-guarded fields at the next acquire)
 		un.note("goroutine spawned in " + funcKey(fr.fn) + ": its body is not interleaved with the spawner (lock discipline stands in)")
+		// the callee's precondition must hold where it is spawned: the call is executed on a scratch copy of the state
+		// (its obligations count, its effects do not)
+		scratch := st.clone()
+		// whatever the scratch execution assumes must not leak into the spawner's path: it runs under an extra,
+		// unconstrained path condition
+		scratch.guard = and(st.guard, un.u.freshConst("spawn", "Bool"))
+		un.preOnly = true
+		un.execCall(fr, scratch, in.Common(), in, in.Pos())
+		un.preOnly = false
+		// ghost: spawned_<F>(x) counts the goroutines started by `go x.F(...)` / `go F(x, ...)`
+		if len(in.Call.Args) > 0 {
+			if _, isPtr := in.Call.Args[0].Type().Underlying().(*types.Pointer); isPtr {
+				name := "G_spawned"
+				if sc := in.Call.StaticCallee(); sc != nil {
+					name = "G_spawned_" + sanitize(sc.Name())
+				}
+				c := un.comp(name, arraySort("Int", "Int"), "ghost")
+				x := un.val(fr, in.Call.Args[0]).t
+				un.set(st, c, sto(un.get(st, c), "(+ "+sel(un.get(st, c), x)+" 1)", x))
+			}
+		}
 		un.havocVolatile(st)
 	case *ssa.Send:
 		un.execSend(fr, st, in)
@@ -834,6 +855,16 @@ func (un *Unit) execConvert(fr *Frame, st *State, in *ssa.Convert) {
 		r := un.u.freshConst("fconv", un.u.sortOf(to))
 		if tb.Info()&types.IsFloat != 0 && fb.Info()&types.IsInteger != 0 && !un.u.bv {
 			un.addFact(eq(r, "(to_real "+x.t+")"))
+		} else if fb.Info()&types.IsFloat != 0 && tb.Info()&types.IsInteger != 0 && !un.u.bv {
+			// float -> integer truncates toward zero (floats are modelled as mathematical reals: no rounding error);
+			// the result is only pinned down when it fits the target type (Go leaves the rest implementation-defined)
+			tf := un.typeFacts(st, r, to)
+			un.assume(st, tf)
+			trunc := ite("(>= "+x.t+" 0.0)", "(to_int "+x.t+")", "(- (to_int (- "+x.t+")))")
+			probe := un.u.freshConst("ftrunc", "Int")
+			un.addFact(eq(probe, trunc))
+			un.assume(st, implies(un.typeFacts(st, probe, to), eq(r, probe)))
+			un.assumed["floating-point arithmetic is treated as real arithmetic (no rounding); float->int conversion truncates toward zero"] = true
 		} else {
 			un.assume(st, un.typeFacts(st, r, to))
 			un.note("float conversion result is havoc'd within its type's range")
